@@ -106,6 +106,8 @@ pub struct StdinScript {
     pub data: Vec<u8>,
     pub pos: usize,
     pub is_tty: bool,
+    /// reads fail with EIO once this many bytes have been delivered
+    pub fail_at: Option<usize>,
 }
 
 /// steps (polls of the root future that return Pending) allowed per block_on; scenarios scale it
